@@ -125,6 +125,117 @@ def must_pass(fn, starts, targets, through):
     return not (reach & set(targets)), reach & set(targets)
 
 
+def cp_transfer(fn, b, env):
+    """Constant propagation through one block for path-sensitive walks.  Tracks, per whole local:
+    True / False (boolean constants, their copies and negations), ("V", variant) for a local just
+    built as an enum aggregate (`_r = Option::None`) or moved from one, and ("D", variant) for the
+    discriminant read of such a local.  Anything else assigned, call results, and locals that are
+    mutably borrowed or partially written lose their entry.  Returns a new env."""
+    env = dict(env)
+    for s in fn.stmts(b):
+        if s[0] == "setdiscr":
+            env.pop(s[1][0], None)
+            continue
+        if s[0] != "=":
+            continue
+        l, proj = s[1]
+        rv = s[2]
+        if rv[0] == "ref" and rv[1] == "mut":
+            env.pop(rv[2][0], None)
+        if proj:
+            env.pop(l, None)
+            continue
+        if rv[0] == "use":
+            c = op_const(rv[1])
+            if c is not None and c[0] == "bool":
+                env[l] = (c[2].get("int") == "1") if "int" in c[2] else (c[1] == "true")
+                continue
+            sl = op_local(rv[1])
+            if sl is not None and sl in env:
+                env[l] = env[sl]
+                continue
+        elif rv[0] == "un" and rv[1] == "Not":
+            sl = op_local(rv[2])
+            if sl is not None and isinstance(env.get(sl), bool):
+                env[l] = not env[sl]
+                continue
+        elif rv[0] == "agg" and isinstance(rv[1], list) and rv[1][0] == "adt" and len(rv[1]) > 2:
+            env[l] = ("V", rv[1][2])
+            continue
+        elif rv[0] == "discr":
+            pl = rv[1]
+            v = env.get(pl[0]) if not pl[1] else None
+            if isinstance(v, tuple) and v[0] == "V":
+                env[l] = ("D", v[1])
+                continue
+        env.pop(l, None)
+    t = fn.term(b)
+    if t[0] == "call":
+        for a in t[2]:
+            pl = op_place(a)
+            if pl is not None and a[0] == "m":
+                env.pop(pl[0], None)
+        if not t[3][1]:
+            env.pop(t[3][0], None)
+    return env
+
+
+def cp_switch_target(fn, b, env):
+    """the single feasible successor of switch block b under env, or None when undecided"""
+    info = fn.switch_info(b)
+    if info is None:
+        return None
+    l = info.get("local")
+    v = env.get(l)
+    if info.get("kind") == "bool" and isinstance(v, bool):
+        return info["edges"][v]
+    if info.get("kind") == "enum" and isinstance(v, tuple) and v[0] == "D":
+        return info["edges"].get(v[1], info["otherwise"])
+    return None
+
+
+def reachable_cp(fn, starts, avoid=(), max_states=20000):
+    """Blocks reachable from the entry of `starts` without entering `avoid`, pruning switch edges
+    that contradict constants assigned earlier on the same path (`_r = const true; ..; switch _r`,
+    `_r = Option::None; ..; match _r`).  This is what makes must-pass-through rules exact on code
+    where a helper that returns `true` / `false` / `None` was inlined: the caller's test of the
+    returned value is decided on each path (see cp_transfer for what is tracked)."""
+    avoid = set(avoid)
+    seen_blocks = set()
+    seen = set()
+    work = [(s, ()) for s in starts if s not in avoid]
+    n = 0
+    while work:
+        b, envt = work.pop()
+        if (b, envt) in seen:
+            continue
+        seen.add((b, envt))
+        seen_blocks.add(b)
+        n += 1
+        if n > max_states:
+            # give up on pruning: fall back to plain reachability (sound for must-pass rules)
+            return fn.reachable_blocks(starts, avoid=avoid)
+        env = cp_transfer(fn, b, dict(envt))
+        succ = fn.succs()[b]
+        if fn.term(b)[0] == "switch":
+            tgt = cp_switch_target(fn, b, env)
+            if tgt is not None:
+                succ = [tgt]
+        envt2 = tuple(sorted(env.items(), key=lambda kv: kv[0]))
+        for s2 in succ:
+            if s2 not in avoid:
+                work.append((s2, envt2))
+    return seen_blocks
+
+
+def must_pass_cp(fn, starts, targets, through):
+    """must_pass with boolean constant propagation along paths (see reachable_cp)"""
+    through = set(through)
+    starts = [s for s in starts if s not in through]
+    reach = reachable_cp(fn, starts, avoid=through)
+    return not (reach & set(targets)), reach & set(targets)
+
+
 def blocks_calling(fn, pred):
     """blocks whose terminator is a call satisfying pred(Call)"""
     return [c.block for c in fn.live_calls() if pred(c)]
@@ -194,28 +305,42 @@ def _bool_facts(fn, l, value, depth):
         if k == "bin":
             return [("cmp", rv[1], _operand_desc(fn, rv[2]), _operand_desc(fn, rv[3]), value)]
         return []
-    # phi of constants (matches!, &&, ||): value v was assigned in some blocks
-    if ds and all(x[2][0] == "use" for x in ds):
-        blocks = []
-        nonconst = []
+    # phi of constants (matches!, &&, ||, early `return true/false` of an inlined helper): the
+    # value v was assigned in some blocks; other definitions copy / negate another boolean or take
+    # a call result
+    if ds and all(x[2][0] in ("use", "un", "callret") for x in ds):
+        parts = []  # one {stripped fact: full fact} map per definition that can produce `value`
+
+        def asmap(fs):
+            return {s: f for s, f in zip(_strip(fs), fs)}
+
         for x in ds:
-            c = op_const(x[2][1])
-            if c is not None:
-                v = c[1] == "true"
-                if v == value:
-                    blocks.append(x[0])
+            rv = x[2]
+            here = facts_at(fn, x[0], depth + 1)
+            if rv[0] == "use":
+                c = op_const(rv[1])
+                if c is not None:
+                    v = (c[2].get("int") == "1") if "int" in c[2] else (c[1] == "true")
+                    if v == value:
+                        parts.append(asmap(here))
+                    continue
+                il = op_local(rv[1])
+                parts.append(asmap(here + _bool_facts(fn, il, value, depth + 1)))
+            elif rv[0] == "un" and rv[1] == "Not":
+                il = op_local(rv[2])
+                parts.append(asmap(here + _bool_facts(fn, il, not value, depth + 1)))
+            elif rv[0] == "callret":
+                call = rv[1]
+                args = tuple(arg_path_s(fn, call, i) for i in range(len(call.args)))
+                parts.append(asmap(here + [("callbool", call.name, args, value, call)]))
             else:
-                # `_l = move _other` (the && / || tail)
-                nonconst.append(x)
-        common = None
-        for b in blocks:
-            fs = set(_strip(facts_at(fn, b, depth + 1)))
-            common = fs if common is None else (common & fs)
-        for x in nonconst:
-            il = op_local(x[2][1])
-            fs = set(_strip(facts_at(fn, x[0], depth + 1)) + _strip(_bool_facts(fn, il, value, depth + 1)))
-            common = fs if common is None else (common & fs)
-        return list(common or [])
+                parts.append(asmap(here))
+        if not parts:
+            return []
+        keys = set(parts[0])
+        for p in parts[1:]:
+            keys &= set(p)
+        return [parts[0][k] for k in keys]
     return []
 
 
